@@ -73,6 +73,10 @@ def _case(draw, knob):
         nm = project.NAMES[target].split(".")[-1]
         m["body"].insert(draw(st.integers(0, len(m["body"]))), {"k": "raw", "src": draw(st.sampled_from((
             "__all__ = [%r, 'helper']" % nm, "REGISTRY = {%r: None}" % nm, "EXPORTED = (%r,)" % nm)))})
+    if draw(st.integers(0, 3)) == 0:
+        # assignments whose target is not a bare name
+        m["body"].insert(draw(st.integers(0, len(m["body"]))), {"k": "raw", "src": draw(st.sampled_from((
+            "import os\nos.environ['DOCTRANS_X'] = '3'", "MAJOR, MINOR = 1, 2", "TABLE = {}\nTABLE['k'] = 1")))})
     if draw(st.integers(0, 4)) == 0:
         # a bystander with positional-only parameters (and one with every other kind of parameter)
         m["body"].insert(draw(st.integers(0, len(m["body"]))), {"k": "raw", "src": draw(st.sampled_from((
